@@ -138,9 +138,9 @@ func c01Body(e *fw.Env, r *fw.Result) func(c *choice.Ctx) {
 	bigSizes := [][2]int{{64, 64}, {65, 33}, {129, 2}, {320, 320}, {1, 16383}, {16383, 1}}
 	return func(c *choice.Ctx) {
 		cs := &c01Case{Seed: e.Seed, Type: "NRGBA"}
-		parts := 5
+		parts := 6
 		if !quick {
-			parts = 7
+			parts = 8
 		}
 		switch c.PickFree(parts, "part") {
 		case 0: // transform-selection product
@@ -188,14 +188,25 @@ func c01Body(e *fw.Env, r *fw.Result) func(c *choice.Ctx) {
 			cs.Alpha = []string{"opaque", "binary"}[c.PickFree(2, "alpha")]
 			cs.Q = []int{25, 75, 100}[c.PickFree(3, "q")]
 			cs.M = c.PickFree(7, "method")
-		case 5: // thorough: large pictures (parallel paths eligible, strips at the dimension cap)
+		case 5: // alphabet-size sweep: every number of distinct colours 1..260 (all present, noise layout);
+			// the number of used symbols decides the shape of every code-length table (zero runs, palette packing)
+			cs.W, cs.H = 20, 20
+			cs.Content = fmt.Sprintf("k%d", 1+c.PickFree(260, "colours"))
+			cs.Alpha = "opaque"
+			qm := [][2]int{{0, 0}, {25, 3}, {75, 4}, {100, 6}}
+			if !quick {
+				qm = append(qm, [2]int{25, 0}, [2]int{75, 3}, [2]int{50, 5}, [2]int{0, 6})
+			}
+			x := qm[c.PickFree(len(qm), "qm")]
+			cs.Q, cs.M = x[0], x[1]
+		case 6: // thorough: large pictures (parallel paths eligible, strips at the dimension cap)
 			s := bigSizes[c.PickFree(len(bigSizes), "size")]
 			cs.W, cs.H = s[0], s[1]
 			cs.Content = []string{"c4", "c17", "gradient", "noise"}[c.PickFree(4, "content")]
 			cs.Alpha = []string{"opaque", "binary", "agradient"}[c.PickFree(3, "alpha")]
 			qm := [][2]int{{75, 4}, {100, 6}, {0, 0}, {75, 5}, {50, 2}}[c.PickFree(5, "qm")]
 			cs.Q, cs.M = qm[0], qm[1]
-		case 6: // thorough: every Quality 0..100 on a core set
+		case 7: // thorough: every Quality 0..100 on a core set
 			core := [][2]int{{9, 5}, {16, 16}, {33, 17}}
 			s := core[c.PickFree(len(core), "size")]
 			cs.W, cs.H = s[0], s[1]
@@ -228,7 +239,7 @@ func c01Body(e *fw.Env, r *fw.Result) func(c *choice.Ctx) {
 func init() {
 	fw.Register(&fw.Check{
 		ID: "C01", Level: "exploration", Shards: shards16,
-		Rule:   "full product of (size class x colour-content class x alpha class x Go image type x Quality thresholds x Method 0..6 x Exact x metadata) in four sub-products plus every image of shape 1x1,2x1,1x2,3x1,2x2 over a 5-pixel alphabet; a case is non-trivial if it is not the 1x1 NRGBA base picture; distinct = distinct (image class, option) tuple",
+		Rule:   "full product of (size class x colour-content class x alpha class x Go image type x Quality thresholds x Method 0..6 x Exact x metadata) in four sub-products plus every image of shape 1x1,2x1,1x2,3x1,2x2 over a 5-pixel alphabet, plus every number of distinct colours 1..260 on a 20x20 noise layout; a case is non-trivial if it is not the 1x1 NRGBA base picture; distinct = distinct (image class, option) tuple",
 		Assume: []string{"worker count pinned to 1 and pools never reuse (C12/C11 study those)", "independent decoder: vendored golang.org/x/image/vp8l", "filler pixel values inside a class are a fixed function of position and VERIF_SEED"},
 		Run: func(e *fw.Env, r *fw.Result) {
 			pin()
